@@ -56,9 +56,26 @@ def check(ctx):
         ctx.violation("%d of %d Huffman encoder rows differ from the specification, first: %s" % (bad, n, first), {"rows": rows, "first": first}, tag="encrows")
     if n < 100:
         raise ToolError("vacuous Huffman encoder rows")
+    # ---- decoder side, FSE-compressed descriptions from the independent encoder, up to the 127-byte boundary ----
+    frows = ctx.path("huf_fse_rows.ndjson")
+    frep = ctx.path("c13fse.json")
+    vh(ctx, ["c13fse", ctx.seed, ctx.tier, frows, frep])
+    fj = json.load(open(frep))
+    if fj["spec_vs_libzstd"]:
+        raise ToolError("the independent FSE weight encoder disagrees with libzstd: %s" % fj["spec_vs_libzstd_examples"][:2])
+    for m in fj["first"]:
+        ctx.violation("FSE-compressed weights (%s symbols, description of %s bytes): %s" % (m["symbols"], m["description_bytes"], m["error"]), m, tag="fsedesc")
+    fn, fbad, ffirst = rows_run(ctx, "HufRows", frows, "HufFseRows")
+    if fbad:
+        raise ToolError("the harness generated %d FSE-compressed descriptions that the specification reads differently: %s" % (fbad, ffirst))
+    ctx.cov["fse_compressed_descriptions"] = {k: fj[k] for k in ("tried", "cases", "mismatches", "descriptions_of_124_to_127_bytes", "with_127_bytes", "found_by_search")}
+    ctx.cov["fse_compressed_descriptions"]["confirmed_by_specification"] = fn
+    if fj["cases"] < 100 or fj["with_127_bytes"] < 1:
+        raise ToolError("vacuous FSE-compressed description cases: %s" % ctx.cov["fse_compressed_descriptions"])
+    n += fn
     ctx.evaluations += dj["cases"] + n + ej["roundtrips"]
     ctx.distinct += dj["cases"] + n
     ctx.traces += dj["cases"] + n
-    ctx.assumptions += ["decoder: all explicit weight vectors up to 4 (5) entries over weights 0..4; longer and FSE-compressed descriptions through the encoder rows and real frames (C01)",
+    ctx.assumptions += ["decoder: all explicit weight vectors up to 4 (5) entries over weights 0..4; longer ones through the encoder rows and real frames (C01); FSE-compressed descriptions from an independent encoder over alphabets of 3..256 symbols up to the largest expressible size (127 bytes)",
                         "complete-but-not-minimal descriptions are unconstrained (RFC silent, libzstd refuses them)"]
     return ctx.finish("model_checking")
